@@ -76,7 +76,7 @@ PROPS["C04"] = dict(
     assumptions=COMMON_ASSUME,
     technique="property-based testing (rapid) + bounded-exhaustive sweep against a sequence model with whole-storage frame condition",
     level_text=("Generated call sequences against a sequence model; exhaustive for all 13 types, C<=4, roots <=3 (5) frames, all windows, every call "
-                "count 0..spare+C+1 and far beyond capacity; larger shapes sampled. Buffers produced by a growing Append are tested themselves and through windows of them (capacity of the window not a whole number of frames). Three named element types; channel counts 255..257 and 65535..65537 are swept, 255..513 drawn rarely. Appended values include -0, subnormals, +Inf, -MaxFloat and a fraction for the floating types."),
+                "count 0..spare+C+1 and far beyond capacity; larger shapes sampled. Buffers produced by a growing Append are tested themselves and through windows of them (capacity of the window not a whole number of frames). Three named element types; channel counts 255..257 and 65535..65537 are swept, 255..513 drawn rarely. Appended values include -0, subnormals, +Inf, -MaxFloat and a fraction for the floating types. Midway the same frames are sliced twice in a row (the first of the two grows by a sample): the second must be a window of the original length."),
     level_note="Trusts Alloc/Slice/Sample to build and observe fixtures.",
 )
 
@@ -136,7 +136,7 @@ PROPS["C15"] = dict(
           "Oracle: the call panics; afterwards both operands' whole root storage, headers and the caller's slices are unchanged; for Put the "
           "rejected buffer is intact (not cleared) and the next three Gets return allocator-shaped zeroed buffers. Every case is a mismatch "
           "by construction; distinct = distinct (entry point, types, shapes)."
-          " Operands may end in partial frames; the caller's outer slice may have further per-channel slices behind its length. Operands may hold fewer samples than one frame (1..C-1 single samples in an empty window). Put of a buffer grown to a partial last frame into a pool of the whole frames below its length; whether a case is a mismatch is decided from the storage's capacity, not from Cap(). A burst of up to 100 legitimate get/put pairs may precede the mismatching Put. Every rejected Put is repeated once: it must panic again and change nothing."),
+          " Operands may end in partial frames; the caller's outer slice may have further per-channel slices behind its length. Operands may hold fewer samples than one frame (1..C-1 single samples in an empty window). Put of a buffer grown to a partial last frame into a pool of the whole frames below its length; whether a case is a mismatch is decided from the storage's capacity, not from Cap(). A burst of up to 100 legitimate get/put pairs may precede the mismatching Put. Every rejected Put is repeated once: it must panic again and change nothing. Zero slices are also passed as a nil outer slice."),
     quick=dict(rapid=dict(checks=40000, shards=8)),
     thorough=dict(rapid=dict(checks=150000, shards=16), fuzz=dict(targets=["FuzzC15"], seconds=20)),
     assumptions=COMMON_ASSUME,
@@ -160,7 +160,7 @@ PROPS["C20"] = dict(
     assumptions=COMMON_ASSUME,
     technique="bounded-exhaustive cross product of entry points x degenerate shapes + property-based testing (rapid); oracle = no panic, zero counts, whole-state snapshots",
     level_text=("Exhaustive cross product of every exported entry point x every degenerate allocator on a small grid x all types/pairs/instantiations; "
-                "larger degenerate shapes and partner sizes sampled by rapid. Pooled zero-length buffers are used (AppendSample) before they go back. Three named element types and nine named/underlying Read/Write pairs. After Slice(0,0) of a zero-capacity buffer one of the two grows by an Append; the other must stay inert. Two to four buffers of a degenerate pool are outstanding together and all put back."),
+                "larger degenerate shapes and partner sizes sampled by rapid. Pooled zero-length buffers are used (AppendSample) before they go back. Three named element types and nine named/underlying Read/Write pairs. After Slice(0,0) of a zero-capacity buffer one of the two grows by an Append; the other must stay inert. Two to four buffers of a degenerate pool are outstanding together and all put back. Empty zero-capacity buffers with 0..3 channels allocated elsewhere are offered to every pool without storage."),
     level_note="For ChannelLength(n>0, 0), a combination no buffer can produce, only 'no panic and a result in [0,n]' is demanded.",
 )
 NUM_ASSUME = COMMON_ASSUME + [
